@@ -600,6 +600,9 @@ enum Fault {
 	BboxArity { sel: u16, n: u8 },
 	/// bbox with 4 entries one of which is a word
 	BboxWord { sel: u16, idx: u8, word: String },
+	/// a source list, holding an operation that does not exist, behind an operation that takes no
+	/// sources (`from_container filename=x [ no_such_operation ]`)
+	UnknownInSourcesOfLeaf { sel: u16, name: String },
 }
 
 /// a word that is not a number in any notation (does not start with i/n/e/f: "inf", "nan", …)
@@ -621,6 +624,7 @@ fn fault() -> impl Strategy<Value = Fault> {
 		3 => (any::<u16>(), any::<u8>(), pvec(bare_string(), 0..=3)).prop_map(|(sel, which, extra)| Fault::ListForScalar { sel, which, extra }),
 		2 => (any::<u16>(), select(vec![1u8, 2, 3, 5, 6])).prop_map(|(sel, n)| Fault::BboxArity { sel, n }),
 		2 => (any::<u16>(), 0u8..4, word()).prop_map(|(sel, idx, word)| Fault::BboxWord { sel, idx, word }),
+		2 => (any::<u16>(), ident()).prop_map(|(sel, name)| Fault::UnknownInSourcesOfLeaf { sel, name }),
 	]
 }
 
@@ -773,6 +777,15 @@ fn apply_fault(tree: &mut Tree, fault: &Fault) -> String {
 			}
 			set_prop(n, key, Val::List(list));
 			format!("list-for-scalar:{}.{key}{}", info.name, place(&info))
+		}
+		Fault::UnknownInSourcesOfLeaf { sel, name } => {
+			let info = choose(tree, *sel, &|i| !matches!(i.name.as_str(), "from_overlayed" | "from_vectortiles_merged"), Some(Node::new("filter_zoom").prop("min", "1")));
+			let mut name = name.clone();
+			if known_like(&name) {
+				name.push_str("_x");
+			}
+			node_mut(tree, info.idx, &mut 0).unwrap().sources = vec![Tree::new(vec![Node::new(&name)])];
+			format!("unknown-operation-in-sources-of:{}{}", info.name, place(&info))
 		}
 		Fault::BboxArity { sel, n } => {
 			let info = choose(tree, *sel, &|i| i.name == "filter_bbox", Some(Node::new("filter_bbox")));
